@@ -45,8 +45,6 @@ def flow_scripted(dep, ending, seed, label, deadline, kind="socks5_ipv4"):
         a3, b3 = _sb(seed, label + "/a3", 300000), _sb(seed, label + "/b3", 300000)
         steps = [("app_send", a1), ("target_send", b1), ("drain",), ("app_send", a3), ("target_send", b3),
                  ("app_reset",) if ending == "app_resets_midtransfer" else ("target_reset",)]
-    elif ending == "app_closes_immediately":
-        steps = [("app_close",)]
     elif ending == "app_closes_first":
         steps = [("app_send", a1), ("target_send", b1), ("drain",), ("app_send", a2), ("app_close",)]
     elif ending == "target_closes_first":
@@ -58,18 +56,9 @@ def flow_scripted(dep, ending, seed, label, deadline, kind="socks5_ipv4"):
     else:
         raise ValueError(ending)
     with T.TcpTarget() as tgt:
-        o = T.run_tcp_flow(dep, tgt, kind, steps, deadline=deadline, dial_deadline=(1.0 if ending == "app_closes_immediately" else None))
+        o = T.run_tcp_flow(dep, tgt, kind, steps, deadline=deadline)
     problems = []
-    if ending == "app_closes_immediately":
-        # the application goes away before it wrote a byte: the tunnel may or may not have been opened by then; if the target was
-        # dialled it must see the end of the stream
-        if o["target_connections"] > 1:
-            problems.append("target got %d connections" % o["target_connections"])
-        if o["target_connections"] == 1 and o["target_end"] is None:
-            problems.append("target was dialled and saw neither EOF nor RST within %.0f s after the app closed (before writing anything)" % deadline)
-        if o["target_received"] != o["app_sent"]:
-            problems.append("target received %d bytes, the app wrote %d" % (len(o["target_received"]), len(o["app_sent"])))
-    elif o["target_connections"] != 1:
+    if o["target_connections"] != 1:
         problems.append("target got %d connections" % o["target_connections"])
     if ending in ("app_resets_midtransfer",):
         if o["target_end"] is None:
@@ -93,7 +82,7 @@ def flow_scripted(dep, ending, seed, label, deadline, kind="socks5_ipv4"):
     elif ending == "target_resets":
         if o["app_end"] is None:
             problems.append("app saw neither EOF nor RST within %.0f s after the target reset" % deadline)
-    if ending != "app_closes_immediately" and o["errors"] and not problems and any("drain" in e or "never got" in e for e in o["errors"]):
+    if o["errors"] and not problems and any("drain" in e or "never got" in e for e in o["errors"]):
         problems.append("flow did not get going: %s" % o["errors"][:2])
     summ = {"app_sent": len(o["app_sent"]), "target_received": len(o["target_received"]), "target_sent": len(o["target_sent"]),
             "app_received": len(o["app_received"]), "app_end": o["app_end"], "target_end": o["target_end"], "errors": o["errors"][:3],
